@@ -56,6 +56,12 @@ def extreme_cases(tier, seed):
     for N, K, n in [(2 ** 64 - 3, 2 ** 63, 2 ** 63), (2 ** 63, 2 ** 62, 2 ** 62), (2 ** 62, 2 ** 61, 2 ** 61 + 1), (2 ** 64 - 3, 2 ** 40, 2 ** 63), (2 ** 50, 2 ** 49, 2 ** 25),
                     (2 ** 52, 2 ** 51, 2 ** 51), (2 ** 53, 2 ** 52, 2 ** 52), (2 ** 54, 2 ** 53, 2 ** 53), (2 ** 56, 2 ** 55, 2 ** 40), (2 ** 57, 2 ** 56, 2 ** 56), (3 * 2 ** 52, 2 ** 52, 2 ** 52)]:
         out.append(mk('hypergeometric', 'u64', [N, K, n], ('c03',)))
+    # every small hypergeometric triple (the inverse-transform walk must stop at the end of the support for the
+    # largest draw whatever the rounding of its pmf terms)
+    for N in range(1, 11 if tier != 'thorough' else 15):
+        for K in range(0, N + 1):
+            for n in range(0, N + 1):
+                out.append(mk('hypergeometric', 'u64', [N, K, n], ('c03',)))
     for ty in C.FLOAT_TYS:
         for k in [C.TINY[ty] * 1e10, 1e-6, 1e-4]:
             out.append(mk('gamma', ty, [k, 1.0], ('c03',)))
@@ -96,7 +102,7 @@ def run(prop, tier, seed):
                 sweep_ids.add(c['id'])
     jobs = []
     base = {
-        'seeds': list(range(16 if th else 2)), 'positions': 16 if th else 8,
+        'seeds': list(range(32 if th else 6)), 'positions': 16 if th else 8,
         'random_calls': 100000, 'verif_seed': seed, 'budget_words': 100000,
     }
     for prof, b in bins.items():
